@@ -619,9 +619,63 @@ pub fn check_run(c: &RunCase, st: &mut Stats) -> Check {
     }
 }
 
+// ---------------------------------------------------------------------------------------------
+// (e) very long lines: one name of 2^20 .. 48 MiB bytes, well-formed and with every single violation
+
+#[derive(Clone, Debug, Serialize, Deserialize)]
+pub struct HugeCase {
+    /// byte length of the long name
+    pub len: usize,
+    /// 0 = class line (long original), 1 = class line (long obfuscated), 2 = method (long original name),
+    /// 3 = method (long argument list), 4 = field (long type)
+    pub shape: u8,
+}
+
+pub fn check_huge(c: &HugeCase, st: &mut Stats) -> Check {
+    let long = "n".repeat(c.len);
+    let line = match c.shape {
+        0 => LineAst::Class { orig: format!("com.example.{long}"), obf: "a.b".into() },
+        1 => LineAst::Class { orig: "com.example.Foo".into(), obf: long.clone() },
+        2 => LineAst::Member(Item::Method(Method { range: Some((1, 2)), ty: "void".into(), oclass: None, oname: long.clone(), args: "int".into(), olines: OLines::SE(3, 4), obf: "a".into() })),
+        3 => LineAst::Member(Item::Method(Method { range: None, ty: "void".into(), oclass: Some("x.Y".into()), oname: "m".into(), args: format!("int,{long}"), olines: OLines::None, obf: "a".into() })),
+        _ => LineAst::Member(Item::Field { ty: long.clone(), orig: "f".into(), obf: "a".into() }),
+    };
+    let (text, want) = print_and_expect(&line);
+    st.class(&format!("line of {} bytes", if c.len >= 1 << 24 { ">= 16 MiB" } else if c.len > 1 << 20 { "> 1 MiB" } else { "<= 1 MiB" }));
+    st.nontrivial(fnv64(&[c.shape, (c.len % 251) as u8, (c.len >> 20) as u8]));
+    for term in ["", "\n", "\r\n"] {
+        st.evaluations += 1;
+        check_exact(format!("{text}{term}").as_bytes(), &want, "very long line")?;
+    }
+    // inside a file: neighbours keep their identity, the long line appears once
+    let file = format!("# compiler: R8\nx.Y -> z:\n{text}\r\n    void m() -> b\n");
+    st.evaluations += 1;
+    let items = file_items(file.as_bytes()).map_err(|p| Fail::new("parse-panic", p))?;
+    match items.get(2) {
+        Some(Ok(r)) if want_matches(&want, r) && items.len() == 4 && items[3].is_ok() => {}
+        other => return Err(Fail::new("wrong-record-in-file", format!("very long line (shape {}, {} bytes) inside a file: item 2 of {} is {}", c.shape, c.len, items.len(), crate::engine::truncate(&format!("{other:?}"), 300)))),
+    }
+    for which in 0..VIOLATIONS.len() {
+        if let Some((bad, kind)) = violate(&line, &text, which) {
+            st.evaluations += 2;
+            check_must_err(format!("{bad}\n").as_bytes(), kind)?;
+            // the error item of the iterator carries the whole line, too
+            let file = format!("x.Y -> z:\n{bad}\n    void m() -> b\n");
+            let items = file_items(file.as_bytes()).map_err(|p| Fail::new("parse-panic", p))?;
+            match items.get(1) {
+                Some(Err(l)) if strip_term(l) == bad.as_bytes() && items.len() == 3 => {}
+                Some(Err(l)) => return Err(Fail::new("error-line", format!("violation '{kind}' on a line of {} bytes: the error item carries {} bytes ({} items in the file)", bad.len(), strip_term(l).len(), items.len()))),
+                Some(Ok(r)) => return Err(Fail::new("malformed-accepted", format!("violation '{kind}' on a line of {} bytes was accepted: {}", bad.len(), crate::engine::truncate(&format!("{r:?}"), 200)))),
+                None => return Err(Fail::new("error-line", format!("violation '{kind}' on a line of {} bytes: the file yields {} items", bad.len(), items.len()))),
+            }
+        }
+    }
+    Ok(())
+}
+
 pub fn run(ctx: &Ctx) -> Report {
     let mut rep = Report::new(ID, "exploration", ctx);
-    rep.rule = "(a) generated record ASTs (class/method/field/sourceFile/padded key-value headers; identifier alphabet incl. $ < > - [ ] digits, 2/3/4-byte UTF-8, long names; numbers 0..2^40; every combination of optional parts) printed canonically with terminators none/LF/CRLF/LFLF/CR, parsed alone (try_parse) and embedded between other lines (iter); expected record computed from the AST; plus one documented single violation per case (arrow missing/unspaced/half-spaced, class colon missing, indent 0/2/3/5/tab, start without end, return type missing) which must be an Err carrying the line. (b) bounded-exhaustive slot product indent x range x type x name x args x original-lines x arrow x obfuscated x terminator (+ class and header products): 0 bad slots => exact record, exactly 1 => Err, >=2 => totality only. (c) bounded-exhaustive: all strings of <=6 (quick) / <=7 (thorough) tokens over a 12-token alphabet against a strict hand-written recogniser of the documented grammar (recognised => exact record; every Err carries its line). (d) every line of the corpus files against the recogniser. evaluations = parse calls. Non-trivial = distinct well-formed lines with >=1 optional part / recognised well-formed lines, plus distinct single-violation lines.".into();
+    rep.rule = "(a) generated record ASTs (class/method/field/sourceFile/padded key-value headers; identifier alphabet incl. $ < > - [ ] digits, 2/3/4-byte UTF-8, long names; numbers 0..2^40; every combination of optional parts) printed canonically with terminators none/LF/CRLF/LFLF/CR, parsed alone (try_parse) and embedded between other lines (iter); expected record computed from the AST; plus one documented single violation per case (arrow missing/unspaced/half-spaced, class colon missing, indent 0/2/3/5/tab, start without end, return type missing) which must be an Err carrying the line. (b) bounded-exhaustive slot product indent x range x type x name x args x original-lines x arrow x obfuscated x terminator (+ class and header products): 0 bad slots => exact record, exactly 1 => Err, >=2 => totality only. (c) bounded-exhaustive: all strings of <=6 (quick) / <=7 (thorough) tokens over a 12-token alphabet against a strict hand-written recogniser of the documented grammar (recognised => exact record; every Err carries its line). (d) every line of the corpus files against the recogniser. (e) lines with one name of 2^20-20 .. 2^24+3 (thorough: 48 MiB) bytes in five shapes, well-formed (exact record, alone and inside a file) and with every applicable single violation (Err carrying the whole line, from try_parse and from the iterator). evaluations = parse calls. Non-trivial = distinct well-formed lines with >=1 optional part / recognised well-formed lines, plus distinct single-violation lines.".into();
     rep.assumptions = vec!["the recogniser is narrower than the parser: lines it does not classify are only checked for totality".into(), "error lines are compared up to their terminator".into()];
     let n = ctx.cases(200_000, 9_000_000);
     rep.run_stage("lines", line_case, n, check_line_case);
@@ -648,6 +702,13 @@ pub fn run(ctx: &Ctx) -> Report {
     rep.run_enum("runs", &runs, check_run);
     let files = super::c02::corpus_files();
     rep.run_enum("corpus", &files, check_corpus_file);
+    let mut huge = Vec::new();
+    for len in ctx.tier.pick(&[(1usize << 20) - 20, (1 << 20) + 1, (1 << 21) + 5, (1 << 24) + 3][..], &[(1usize << 20) - 20, 1 << 20, (1 << 20) + 1, (1 << 21) + 5, (1 << 24) + 3, (1 << 25) + 9, 48 << 20][..]) {
+        for shape in 0..5u8 {
+            huge.push(HugeCase { len: *len, shape });
+        }
+    }
+    rep.run_enum("huge", &huge, check_huge);
     rep
 }
 
@@ -665,6 +726,7 @@ pub fn replay(stage: &str, case: &Value) -> Check {
         "tokens" => check_token_chunk(&TokenChunk { len: case["len"].as_u64().unwrap_or(1) as usize, first: case["first"].as_u64().unwrap_or(0) as usize }, &mut st),
         "runs" => check_run(&RunCase { n: case["n"].as_u64().unwrap_or(0) as usize, eol: match case["eol"].as_str() { Some("\r\n") => "\r\n", Some("\r") => "\r", _ => "\n" } }, &mut st),
         "corpus" => check_corpus_file(&case.as_str().unwrap_or("").to_string(), &mut st),
+        "huge" => check_huge(&serde_json::from_value(case.clone()).map_err(|e| Fail::new("harness-replay", e.to_string()))?, &mut st),
         _ => Err(Fail::new("harness-replay", format!("unknown stage {stage}"))),
     }
 }
